@@ -196,6 +196,16 @@ func runC02(c *Ctx) {
 		cl.Note = "generated"
 		calls = append(calls, cl)
 	}
+	// chains: every file of a chain decodes to the values its own bytes denote (nothing of the
+	// previous file - a time reference, definitions - takes part)
+	crng := newRng(c.Seed + 99)
+	for i := 0; i < c.pick(30, 300); i++ {
+		a, b := c12Stream(crng, crng.Intn(3)).Bytes(), c12Stream(crng, crng.Intn(3)).Bytes()
+		id++
+		cl := p.runCall(id, "chained", append(append([]byte{}, a...), b...), plain, CallOpts{}, true)
+		cl.Note = "two timestamp streams chained"
+		calls = append(calls, cl)
+	}
 	mm := c.validateCalls(p, sch, calls, 14)
 	c.reportFamily(p, mm, nil)
 	c.verdictStats(calls)
